@@ -188,9 +188,9 @@ class _TzdbStreamData:
                         return _CachedDateTimeZone._for_zone(_PrecalculatedDateTimeZone._read(reader, id_))
                     case _:
                         raise InvalidPyodaDataError(f"Unknown time zone type {type_.name}")
-        except (ValueError, LookupError, OverflowError) as e:
+        except (ValueError, LookupError, OverflowError, RuntimeError) as e:
             # Values decoded from damaged data can be rejected anywhere below (enum lookups, argument
-            # validation, range checks); report them all as invalid data.
+            # validation, range checks, recurrence rules which contradict each other); report them all as invalid data.
             raise InvalidPyodaDataError(f"Invalid data for time zone {canonical_id}: {e}") from e
 
     @staticmethod
